@@ -165,6 +165,11 @@ def documents(draw: Any, kind: str = 'function', fmt_family: str = 'markup', max
     if fmt_family == 'sections' and draw(st.integers(0, 2)) == 0:
         for nm in draw(st.lists(st.sampled_from(['Engine', 'Engine.start']), min_size=1, max_size=2, unique=True)):
             seealso.append({'name': nm, 'words': c.words(draw(st.integers(2, 4))), 'colon': draw(st.sampled_from([0, 0, 1, 2]))})
+    # google: the type of an entry written over two lines; the description then starts on the colon line or on the line below it
+    if fmt_family == 'sections':
+        for x in fields:
+            if x['tag'] in ('param', 'ivar') and x.get('type') and not x.get('lit') and draw(st.integers(0, 3)) == 0:
+                x['mltype'] = draw(st.sampled_from(['desc-on-colon-line', 'desc-below', 'desc-below']))
     # a description may begin with punctuation that a field separator is also made of ("-1 means ...", "--verbose sets ...")
     if fmt_family == 'markup':
         for x in fields:
@@ -403,6 +408,13 @@ def _serialise(doc: Dict[str, Any], fmt: str) -> str:
                         lines.append('    %s%s' % ((' '.join(x['type']) + ': ') if x.get('type') else '', text))
                     elif x['tag'] == 'raise':
                         lines.append('    %s: %s' % (x['arg'], text))
+                    elif x.get('mltype') and x.get('type'):
+                        lines.append('    %s (List[' % x['arg'])
+                        if x['mltype'] == 'desc-on-colon-line':
+                            lines.append('        %s]): %s' % (' '.join(x['type']), text))
+                        else:
+                            lines.append('        %s]):' % ' '.join(x['type']))
+                            lines.append('        ' + text)
                     else:
                         lines.append('    %s%s: %s' % (x['arg'], (' (%s)' % ' '.join(x['type'])) if x.get('type') else '', text))
                     if x.get('lit'):
